@@ -108,4 +108,202 @@ theorem ropZFilter_is_model (f g : ZF α) (op : BinOp) : ALV.Gen.C05.ropZFilter 
 theorem eqNumber_is_model (f : ZF α) (c : α) : ALV.Gen.C05.eqNumber f c = FL.eq (.leaf f) (.num c) := by
   simp [ALV.Gen.C05.eqNumber, FL.eq]
 
+/-! ### the filter list classes -/
+
+/-- `FilterList.__init__`: the regenerated argument rule is the model's `resolve` -/
+theorem filterListInit_is_model : (ALV.Gen.C05.filterListInit : List (Arg α) → Option (FLs α)) = resolve := by
+  funext args
+  match args with
+  | [] => rfl
+  | [a] => cases a <;> rfl
+  | a :: b :: t =>
+    simp [ALV.Gen.C05.filterListInit, resolve, extendTuple]
+
+theorem construct_is_model : (ALV.Gen.C05.construct : Kind → List (Arg α) → Option (FL α)) = ALV.C05.construct := by
+  funext k args
+  unfold ALV.Gen.C05.construct ALV.C05.construct
+  rw [filterListInit_is_model]
+
+/-- `FilterList.__eq__` / `__ne__` between two filter lists -/
+theorem flEq_is_model (k k' : Kind) (a b : FLs α) : ALV.Gen.C05.flEq k k' a b = FL.eq (.node k a) (.node k' b) := by
+  simp only [ALV.Gen.C05.flEq, FL.eq]
+theorem flNe_is_model (k k' : Kind) (a b : FLs α) : ALV.Gen.C05.flNe k k' a b = FL.ne (.node k a) (.node k' b) := by
+  simp only [ALV.Gen.C05.flNe, FL.ne]
+
+theorem reraiseAttribute_id {β : Type} (r : Except PyErr β) : reraiseAttribute r = r := by
+  cases r with
+  | ok v => rfl
+  | error e => cases e <;> rfl
+
+/-- the running products of the model, numerator side, are the flat left fold of `operator.mul` -/
+theorem prodP_flat_fst : ∀ (t : FLs α) (acc : MPoly α × MPoly α),
+    (t.prodP (some acc)).map (fun o => o.map Prod.fst) =
+      (((t.toList.map FL.polys).map fun (p : Except PyErr (MPoly α × MPoly α)) => do
+          let filt ← p
+          pure filt.1).foldlM (fun a y => do
+            let v ← y
+            (.ok (C07.mul a v) : Except PyErr (MPoly α))) acc.1).map some
+  | .nil, acc => rfl
+  | .cons p t, acc => by
+    simp only [FLs.prodP, FLs.toList, List.map_cons, List.foldlM_cons]
+    cases p.polys with
+    | error e => rfl
+    | ok nd => exact prodP_flat_fst t _
+
+theorem prodP_flat_snd : ∀ (t : FLs α) (acc : MPoly α × MPoly α),
+    (t.prodP (some acc)).map (fun o => o.map Prod.snd) =
+      (((t.toList.map FL.polys).map fun (p : Except PyErr (MPoly α × MPoly α)) => do
+          let filt ← p
+          pure filt.2).foldlM (fun a y => do
+            let v ← y
+            (.ok (C07.mul a v) : Except PyErr (MPoly α))) acc.2).map some
+  | .nil, acc => rfl
+  | .cons p t, acc => by
+    simp only [FLs.prodP, FLs.toList, List.map_cons, List.foldlM_cons]
+    cases p.polys with
+    | error e => rfl
+    | ok nd => exact prodP_flat_snd t _
+
+/-- the running sum of the model is the flat left fold of the filter addition -/
+theorem sumF_flat : ∀ (t : FLs α) (acc : ZF α),
+    t.sumF (some acc) =
+      (((t.toList.map FL.polys).map fun (p : Except PyErr (MPoly α × MPoly α)) => do
+          let filt ← p
+          ALV.C05.ofPolys filt.1 filt.2).foldlM (fun a y => do
+            let v ← y
+            ALV.C05.add a v) acc).map some
+  | .nil, acc => rfl
+  | .cons p t, acc => by
+    simp only [FLs.sumF, FLs.toList, List.map_cons, List.foldlM_cons]
+    cases p.polys with
+    | error e => rfl
+    | ok nd =>
+      show (ALV.C05.ofPolys nd.1 nd.2 >>= fun z => ALV.C05.add acc z >>= fun s => t.sumF (some s)) =
+        Except.map some ((ALV.C05.ofPolys nd.1 nd.2 >>= fun v => ALV.C05.add acc v) >>= fun init => List.foldlM _ init _)
+      cases ALV.C05.ofPolys nd.1 nd.2 with
+      | error e => rfl
+      | ok z =>
+        show (ALV.C05.add acc z >>= fun s => t.sumF (some s)) =
+          Except.map some ((ALV.C05.add acc z) >>= fun init => List.foldlM _ init _)
+        cases ALV.C05.add acc z with
+        | error e => rfl
+        | ok s => exact sumF_flat t s
+
+/-- the accumulator of the model (`none` = no part yet: TypeError of `reduce`) against the flat fold -/
+theorem unwrap_flat {X Y : Type} (f : X → Y) (r : Except PyErr (Option X)) (q : Except PyErr Y)
+    (h : r.map (fun o => o.map f) = q.map some) :
+    q = Except.map f (r >>= fun o => match o with
+      | none => .error .type
+      | some nd => pure nd) := by
+  cases r with
+  | error e => cases q with
+    | error e' => cases h; rfl
+    | ok v => cases h
+  | ok o => cases o with
+    | none => cases q with
+      | error e' => cases h
+      | ok v => cases h
+    | some x => cases q with
+      | error e' => cases h
+      | ok v => cases h; rfl
+
+/-- `CascadeFilter.numpoly` / `denpoly`: the flat `reduce(operator.mul, …)` over the parts' polynomials is what the
+model's mutual recursion `FL.polys` computes for a cascade node (of any subclass depth `s`) -/
+theorem cascadeNumpoly_is_model (s : Nat) (ps : FLs α) :
+    ALV.Gen.C05.cascadeNumpoly (ps.toList.map FL.polys) = (FL.polys (.node ⟨false, s⟩ ps)).map Prod.fst := by
+  unfold ALV.Gen.C05.cascadeNumpoly
+  rw [reraiseAttribute_id]
+  simp only [FL.polys, Bool.false_eq_true, ↓reduceIte]
+  match ps with
+  | .nil => rfl
+  | .cons p t =>
+    simp only [FLs.prodP, FLs.toList, List.map_cons, reduceGen]
+    cases p.polys with
+    | error e => rfl
+    | ok nd =>
+      refine Eq.trans ?_ (Eq.trans (unwrap_flat Prod.fst _ _ (prodP_flat_fst t nd)) ?_)
+      · rfl
+      · show _ = Except.map Prod.fst ((t.prodP (some nd)) >>= _)
+        cases t.prodP (some nd) with
+        | error e => rfl
+        | ok o => cases o <;> rfl
+
+theorem cascadeDenpoly_is_model (s : Nat) (ps : FLs α) :
+    ALV.Gen.C05.cascadeDenpoly (ps.toList.map FL.polys) = (FL.polys (.node ⟨false, s⟩ ps)).map Prod.snd := by
+  unfold ALV.Gen.C05.cascadeDenpoly
+  rw [reraiseAttribute_id]
+  simp only [FL.polys, Bool.false_eq_true, ↓reduceIte]
+  match ps with
+  | .nil => rfl
+  | .cons p t =>
+    simp only [FLs.prodP, FLs.toList, List.map_cons, reduceGen]
+    cases p.polys with
+    | error e => rfl
+    | ok nd =>
+      refine Eq.trans ?_ (Eq.trans (unwrap_flat Prod.snd _ _ (prodP_flat_snd t nd)) ?_)
+      · rfl
+      · show _ = Except.map Prod.snd ((t.prodP (some nd)) >>= _)
+        cases t.prodP (some nd) with
+        | error e => rfl
+        | ok o => cases o <;> rfl
+
+/-- `ParallelFilter._sum_filter`: the flat `reduce(operator.add, (ZFilter(filt.numpoly, filt.denpoly) …))` is the
+model's running sum `FLs.sumF` started without accumulator (`none` = no part: the TypeError of `reduce`) -/
+theorem sumFilter_is_model (ps : FLs α) :
+    ALV.Gen.C05.sumFilter (ps.toList.map FL.polys) = (ps.sumF none >>= fun o => match o with
+      | none => .error .type
+      | some h => pure h) := by
+  unfold ALV.Gen.C05.sumFilter
+  rw [add_is_model, ofPolys_is_model]
+  match ps with
+  | .nil => rfl
+  | .cons p t =>
+    simp only [FLs.sumF, FLs.toList, List.map_cons, reduceGen]
+    cases p.polys with
+    | error e => rfl
+    | ok nd =>
+      show (ALV.C05.ofPolys nd.1 nd.2 >>= fun x0 => List.foldlM _ x0 _) =
+        ((ALV.C05.ofPolys nd.1 nd.2 >>= fun z => t.sumF (some z)) >>= _)
+      cases ALV.C05.ofPolys nd.1 nd.2 with
+      | error e => rfl
+      | ok z =>
+        show List.foldlM _ z _ = (t.sumF (some z) >>= _)
+        rw [sumF_flat t z]
+        cases List.foldlM (fun a (y : Except PyErr (ZF α)) => do
+            let v ← y
+            ALV.C05.add a v) z
+          ((t.toList.map FL.polys).map fun (p : Except PyErr (MPoly α × MPoly α)) => do
+            let filt ← p
+            ALV.C05.ofPolys filt.1 filt.2) with
+        | error e => rfl
+        | ok v => rfl
+
+/-- `ParallelFilter.numpoly` / `denpoly` (the repair of D22): with `linear` = the model's `is_linear()` and the parts'
+polynomial pairs, the regenerated property is what `FL.polys` computes for a parallel node -/
+theorem parallelNumpoly_is_model (s : Nat) (ps : FLs α) :
+    ALV.Gen.C05.parallelNumpoly ps.linear (ps.toList.map FL.polys) = (FL.polys (.node ⟨true, s⟩ ps)).map Prod.fst := by
+  unfold ALV.Gen.C05.parallelNumpoly
+  rw [sumFilter_is_model]
+  simp only [FL.polys, ↓reduceIte]
+  cases ps.linear with
+  | false => rfl
+  | true =>
+    show _ = Except.map Prod.fst (ps.sumF none >>= _)
+    cases ps.sumF none with
+    | error e => rfl
+    | ok o => cases o <;> rfl
+
+theorem parallelDenpoly_is_model (s : Nat) (ps : FLs α) :
+    ALV.Gen.C05.parallelDenpoly ps.linear (ps.toList.map FL.polys) = (FL.polys (.node ⟨true, s⟩ ps)).map Prod.snd := by
+  unfold ALV.Gen.C05.parallelDenpoly
+  rw [sumFilter_is_model]
+  simp only [FL.polys, ↓reduceIte]
+  cases ps.linear with
+  | false => rfl
+  | true =>
+    show _ = Except.map Prod.snd (ps.sumF none >>= _)
+    cases ps.sumF none with
+    | error e => rfl
+    | ok o => cases o <;> rfl
+
 end ALV.C05.Src
